@@ -194,6 +194,19 @@ def main():
                     run.violation("mc:not-reproducible", f"{dg}/{dsp} seed {seed}: two runs with the same generator state differ", dict(kind="mc-seed", seed=seed))
                 if not (np.isclose(a[0], c2[0], rtol=1e-12) and np.isclose(a[1], c2[1], rtol=1e-12) and np.array_equal(a[2], c2[2])):
                     run.violation("mc:weight-scale", f"{dg}/{dsp} seed {seed}: multiplying all weights by 8 changes the statistics", dict(kind="mc-seed", seed=seed))
+                # the statistics are those of the returned realisations, one ROW per sensor, weighted per sensor - for any number of
+                # realisations: fewer than, as many as (a square array), and more than there are sensors
+                for nr in (3, 5, 50):
+                    fm_, fs_, real_ = montecarlo_fn(mus, sds, ws, dg, dsp, n_realizations=nr, rng=np.random.default_rng(seed + nr))
+                    real_ = np.asarray(real_, dtype=float)
+                    vals_ = np.log(real_) if dsp == "lognormal" else real_
+                    wn_ = ws / ws.sum()
+                    em_ = float(np.sum(wn_[:, None] * vals_) / nr)
+                    ev_ = float(np.sum(wn_[:, None] * (vals_ - em_) ** 2) / nr / (1 - np.sum(wn_ ** 2) / nr))
+                    em_out = math.exp(em_) if dsp == "lognormal" else em_
+                    if real_.shape != (5, nr) or not (abs(fm_ - em_out) <= 1e-9 * abs(em_out) and abs(fs_ - math.sqrt(ev_)) <= 1e-9 * math.sqrt(ev_) + 1e-12):
+                        run.violation("mc:statistics-of-realizations", f"{dg}/{dsp}, 5 sensors x {nr} realisations: mean/std {fm_}/{fs_}, the weighted estimator over the returned "
+                                      f"realisations gives {em_out}/{math.sqrt(ev_)}", dict(kind="mc-seed", seed=seed, nr=nr))
         run.case(("seeded", t))
     return run.finish(
         rule="every lattice layout of spec/Voronoi.tla (4 of 9 interior points; 5 of 12 incl. edge/outside points; thorough: pentagon) "
